@@ -36,6 +36,7 @@ func checkC08(p *Prog, r *Report) {
 	r.rule("C08.K5", "encrypt/decrypt dispatch on BlockSize() to the function of that width (8, 16), anything else panics; encbuf has bs and decbuf 2*bs bytes", 3)
 	r.rule("C08.K6", "stream, xor and null ciphers: Decrypt is the same transformation as Encrypt (an involution), and the untransformed part is copied when dst != src", 3)
 	r.rule("C08.K7", "AEAD: Seal is reached only when dst != nil and cap(dst)-len(dst) >= len(plaintext)+Overhead(); its result is stored back into the packet it was sealed from and that packet is read afterwards; Open decrypts into ciphertext[:0]", 5)
+	r.rule("C08.K9", "sealing stays inside the packet buffer: the core MTU a session derives leaves room for the AEAD tag on top of the nonce and FEC header for every requested MTU, the clamped ones included (= C10.M6) — otherwise Seal must reallocate, which aeadCrypt refuses with a panic on the transmit goroutine", 2)
 	r.rule("C08.K8", "the feedback registers encbuf/decbuf are read and written only under encMu/decMu (C14.L1)", 4)
 
 	// ---- K1: initialVector
@@ -428,6 +429,9 @@ func checkC08(p *Prog, r *Report) {
 			r.bad("C08.K7", "aeadCrypt.Open", "-", "destination of Open", "no call of aeadCrypt.Open found", "")
 		}
 	}
+
+	// ---- K9
+	delegate(p, r, "C10", checkC10, "C10.M6", "C08.K9")
 
 	// ---- K8
 	{
